@@ -261,6 +261,21 @@ func matchOp(root interface{}, path, op string, operand interface{}) (bool, erro
 	}
 	bs := Walk(root, strings.Split(path, "."), false)
 	fan := hasFan(bs)
+	if fan {
+		// a path that fans out over an array of sub-documents is in the
+		// agreement domain for comparisons with scalars only; for every other
+		// operator the branches must at least end in scalars (a leaf array
+		// behind a fan-out is flattened by lungo, kept by MongoDB)
+		switch op {
+		case "$eq", "$ne", "$gt", "$gte", "$lt", "$lte", "$in", "$nin", "$not":
+		default:
+			for _, b := range bs {
+				if _, isA := b.V.(bson.A); isA {
+					return false, ErrOutside
+				}
+			}
+		}
+	}
 	switch op {
 	case "$eq", "$gt", "$gte", "$lt", "$lte":
 		if fan && (Class(operand) == 1 || Class(operand) == 4 || Class(operand) == 5) {
